@@ -89,11 +89,17 @@ def _signature(project, f, kind):
             img, desc = ("item", ("elem", it), 0), ("item", ("elem", it), 1)
         source = it
     else:
+        # the received item: the call whose result is unpacked into (image, descriptor) -- queue.get(...) itself or a
+        # receive helper wrapped around it
+        firsts = [e.term[1][1][1] for e in r.events if e.kind == "assign" and e.term[1][1][0] == "item" and e.term[1][1][2] == 0 and e.term[1][1][1][0] == "call"]
+        seconds = {e.term[1][1][1] for e in r.events if e.kind == "assign" and e.term[1][1][0] == "item" and e.term[1][1][2] == 1}
+        recv = [g_ for g_ in firsts if g_ in seconds]
         gets = [e for e in r.events if e.kind == "call" and e.term[1][0] == "attr" and e.term[1][2] == "get"]
-        if not gets:
+        if not recv and not gets:
             return None, "worker never receives", r
-        img, desc = ("item", gets[0].term, 0), ("item", gets[0].term, 1)
-        source = gets[0].term
+        src_t = recv[0] if recv else gets[0].term
+        img, desc = ("item", src_t, 0), ("item", src_t, 1)
+        source = src_t
     m = {img: IMG, desc: DESC}
     gens = [(k, it, n) for k, it, n in r.loops if it[0] == "call" and it[1][0] == "attr" and it[1][2] == "generate_populated_positions"]
     if not gens:
@@ -103,9 +109,20 @@ def _signature(project, f, kind):
     el = ("elem", gen_n)
     sig = {"generator": gen_n, "source": source}
     flips = [e for e in r.events if e.kind == "call" and e.term[1][0] == "attr" and e.term[1][2] == "flip_parity"]
-    sig["flip"] = [(_subst(e.term[1][1], m), tuple((_subst(c[0], m), c[1]) for c in e.pc if c[0] != "loop")) for e in flips]
+    def per_image(pc):
+        # conditions of the per-image body; the receive protocol ("did we get an item at all?") is not part of it
+        out = []
+        for c in pc:
+            if c[0] == "loop":
+                continue
+            t = _subst(c[0], m)
+            if source in atoms_of(t):
+                continue
+            out.append((t, c[1]))
+        return tuple(out)
+    sig["flip"] = [(_subst(e.term[1][1], m), per_image(e.pc)) for e in flips]
     ups = [e for e in r.events if e.kind == "call" and e.term[1][0] == "attr" and e.term[1][2] == "update_image"]
-    sig["update_image"] = [(_subst(e.term, m), tuple((_subst(c[0], m), c[1]) for c in e.pc if c[0] != "loop")) for e in ups]
+    sig["update_image"] = [(_subst(e.term, m), per_image(e.pc)) for e in ups]
     uis = [e for e in r.events if e.kind == "call" and e.term[1][0] == "attr" and e.term[1][2] == "update_into_maskable_buffer"]
     sig["update_into"] = [(_subst(e.term[1][1], m), tuple(_subst(a, m) for a in e.term[2])) for e in uis]
     sig["writes"] = [e for e in r.events if e.kind == "call" and e.term[1][0] == "attr" and e.term[1][2] == "write_image"]
@@ -272,21 +289,24 @@ def _r4_cleanup(run):
     cl = project.fn(P + ".PyramidIO.clean_lockfiles")
     up = project.fn(P + ".PyramidIO.update_image")
     run.note_func(cl, up)
-    ev = sym.make_evaluator(project, P, [])
-    rc, ru = ev.run(cl.node), ev.run(up.node)
+    from . import C10 as c10
+    ev = sym.make_evaluator(project, P, [], no_inline=("tile_path", "read_image", "write_image", "update_image"))
+    ev.self_class = P + ".PyramidIO"
+    rc = ev.run(cl.node)
     unl = [e for e in rc.events if e.kind == "call" and show(e.term[1]) in ("os.unlink", "os.remove")]
-    locks = [e for e in ru.events if e.kind == "call" and (show(e.term[1]).split(".")[-1] in ("SoftFileLock", "FileLock"))]
-    if not unl or not locks or not unl[0].term[2] or not locks[0].term[2]:
+    pl, _pos, _lock_ev = c10.lock_key_term(project)
+    if not unl or pl is None or not unl[0].term[2]:
         run.undecided("C09.R4", cl, None, "cannot extract lock / cleanup paths", kind="lock-paths")
         return
-    pc, pl = unl[0].term[2][0], locks[0].term[2][0]
+    pc = unl[0].term[2][0]
 
     def template(t, posterm):
         # tile_path(pos, ...) with the makedirs flag ignored
         def norm(x):
             if isinstance(x, tuple):
                 if x and x[0] == "call" and x[1][0] == "attr" and x[1][2] == "tile_path":
-                    return ("call", x[1], tuple(("sym", "POS") if a == posterm else norm(a) for a in x[2]), tuple((k, norm(v)) for k, v in x[3] if k != "makedirs"))
+                    return ("call", x[1], tuple(("sym", "POS") if a == posterm else norm(a) for a in x[2]),
+                            tuple((k, norm(v)) for k, v in x[3] if k != "makedirs" and not (k == "format" and v == sym.NONE)))
                 return tuple(norm(y) if isinstance(y, tuple) else y for y in x)
             return x
         return norm(t)
